@@ -215,14 +215,15 @@ CHECKS = {
         technique="TLA+ model of the whole tool over a file system of project + outside sentinel (Reuse.tla with Footprint.tla: "
                   "OutsideFootprintUntouched, SentinelNeverTouched, ReadersChangeNothing) model-checked by TLC; every "
                   "command sequence of the model replayed on a real Git work tree; TLC trace validation of metadata snapshots "
-                  "against the documented footprint",
+                  "against the documented footprint, including traces recorded from the repository's own CLI tests",
         text="All sequences of one command and (quick: a seeded sample of) two commands - thorough: sampled triples - over "
              "lint in four formats, lint-file, spdx, spdx -o, supported-licenses, --help, --version, annotate on files, a "
              "binary and a symlink leaving the project, annotate -r on the root, on directories with look-alike siblings and "
              "on a symlinked directory, convert-dep5 and download (also --source onto an existing file) run on a tree with "
              "an outside sentinel, an ignored file, LICENSES/, .reuse/dep5 and a read-only file; TLC checks that everything "
              "that changed (content, mode, mtime, link target) lies in the command's documented footprint and that nothing "
-             "outside the project changed.",
+             "outside the project changed. Every CLI invocation of the repository's tests/test_cli_*.py is recorded by a pytest "
+             "plugin (snapshots around it) and judged by the same specification.",
         note="The covered set for `annotate -r` is the tool's own lint listing before the command (C03's subject); .git/ is "
              "excluded from snapshots; the network is a stub that always succeeds.",
         ref="5/C15"),
@@ -237,7 +238,9 @@ CHECKS = {
              "expression, unreadable and vanishing files, non-UTF-8 LicenseRef text and .license, broken template) are fed "
              "to lint (3 formats), spdx, lint-file, annotate, download --all and convert-dep5; TLC checks: no exception "
              "escapes, exit status in {0,1,2}, invalid configuration gives exit 2 and a message naming the file, valid "
-             "input is not rejected, an unreadable covered file is a read error or lacks information and the run completes.",
+             "input is not rejected, an unreadable covered file is a read error or lacks information and the run completes. "
+             "Every CLI invocation made by the repository's tests/test_cli_*.py is recorded and held to the exit-status "
+             "discipline too.",
         note="Exceptions are observed at the click entry point in-process and, for a sample, as tracebacks of the real "
              "executable; read faults are injected by an audit hook; the valid/invalid/grey table is this check's reading "
              "of REUSE specification 3.3.",
